@@ -572,7 +572,7 @@ class ExcludeRegionState(object):  # pylint: disable=too-many-instance-attribute
         """
         if (deltaE < 0):
             # retraction, record the amount to potentially recover later
-            return self.recordRetraction(
+            returnCommands = self.recordRetraction(
                 RetractionState(
                     originalCommand=cmd,
                     firmwareRetract=False,
@@ -580,6 +580,15 @@ class ExcludeRegionState(object):  # pylint: disable=too-many-instance-attribute
                     feedRate=self.feedRate
                 )
             )
+
+            if (not returnCommands and not self.excluding):
+                # The retraction was dropped because the filament is still retracted, but the
+                # printer's extruder coordinate must keep following the file
+                returnCommands = [
+                    "G92 E{e}".format(e=self.position.E_AXIS.nativeToLogical())
+                ]
+
+            return returnCommands
         elif (deltaE > 0):
             # recovery
             return self.recoverRetractionIfNeeded(cmd, True)
